@@ -182,8 +182,29 @@ Theorem C12_holds_fmt_partial : forall kind v fmt,
   (forall sv n, sval_of kind v = Some sv -> sv_dn sv = Some n -> dn_in_range n = true) ->
   accepted (judge (bytes_of_string "sf.fmt") [VInt kind; v; VStr fmt]
                   (run (bytes_of_string "sf.fmt") [VInt kind; v; VStr fmt])).
-Proof. exact C12_holds_fmt. Qed.
+Proof. exact C12View.C12_holds_fmt. Qed.
 Print Assumptions C12_holds_fmt_partial.
+
+(** ... and without restriction (1): the calendar reading of the two sentinel dates is computed
+    on the closed words (C12_sentinel_date_views), so the statement holds for EVERY decodable value
+    of the five kinds, including a DateTime<FixedOffset> whose local day is one day outside the
+    NaiveDate range.  Restrictions (2) and (3) remain. *)
+Theorem C12_sentinel_date_views :
+  date_view Model.Date.D_BEFORE_MIN (DN_MIN - 1) /\ date_view Model.Date.D_AFTER_MAX (DN_MAX + 1).
+Proof. exact (conj date_view_BEFORE_MIN date_view_AFTER_MAX). Qed.
+Print Assumptions C12_sentinel_date_views.
+Theorem C12_args_view_dtz_all : forall y o s f off sv,
+  sval_of 3 (VTup [VInt y; VInt o; VInt s; VInt f; VInt off]) = Some sv ->
+  exists z a, DateTime.dec_dtz (VTup [VInt y; VInt o; VInt s; VInt f; VInt off]) = Some z /\
+              fa_of_dtz z = Val a /\ args_view a sv.
+Proof. exact args_view_dtz_all. Qed.
+Print Assumptions C12_args_view_dtz_all.
+Theorem C12_holds_fmt : forall kind v fmt,
+  documented_family fmt ->
+  accepted (judge (bytes_of_string "sf.fmt") [VInt kind; v; VStr fmt]
+                  (run (bytes_of_string "sf.fmt") [VInt kind; v; VStr fmt])).
+Proof. exact holds_fmt_all. Qed.
+Print Assumptions C12_holds_fmt.
 
 (** the hypotheses are inhabited: 2001-07-08T00:34:54 (leap second) +09:30, and a format string
     with composites, modifiers, multi-byte text, %+ and %% *)
